@@ -3,7 +3,8 @@ C41 driver: decodes op lines (see harness/c41/c41.go for the protocol) and
 prints the model's canonical outcome.
 -/
 import ElvModel.Go.Driver
-import ElvModel.C41.Spec
+import ElvModel.C41.Template
+import ElvModel.C41.History
 namespace C41
 open Go
 
@@ -126,23 +127,87 @@ def stepLine : List String → String
     match hexDecode s with
     | some s => okLine [sTok (quoteMeta s)]
     | none => "bad-op"
-  | ["find", _flags, max, _pat, src, patok, ms] =>
-    match max.toInt?, hexDecode src, parseMatches ms with
-    | some n, some src, some full => resLine (reFind (patok = "1") n src full) fun l => l.map matchTok
-    | _, _, _ => "bad-op"
-  | ["resplit", _flags, max, pat, src, patok, ms] =>
-    match max.toInt?, hexDecode src, parseMatches ms with
-    | some n, some src, some full =>
-      resLine (reSplit (patok = "1") (pat = "-") n src full) fun l => l.map sTok
-    | _, _, _ => "bad-op"
-  | ["rematch", _flags, _pat, _src, patok, ms] =>
-    match parseMatches ms with
-    | some full => resLine (reMatch (patok = "1") full) fun b => [boolTok b]
-    | none => "bad-op"
-  | ["rereplace", flags, _pat, kind, repl, src, patok, ms, names, nameRunes] =>
-    match hexDecode src, parseMatches ms, parseHexList names, parseInts nameRunes with
-    | some src, some full, some names, some nr =>
-      let literal := flags.toList.contains 'l'
+  | "reset" :: _ => "RESET"
+  | _ => "bad-op"
+
+/-! ### the `re:` ops: decoded into a pattern use + the wrapper logic -/
+
+/-- a decoded `re:` op: which pattern is made with which flags, on which subject,
+what the engine says (`patOk`, `full` — from the op line), and the wrapper logic
+`k` that turns (pattern accepted?, match list) into the output line -/
+structure ReCall where
+  pat : Bytes
+  posix : Bool
+  longest : Bool
+  src : Bytes
+  patOk : Bool
+  full : List Match
+  k : Bool → List Match → String
+
+def hasFlag (flags : String) (c : Char) : Bool := flags.toList.contains c
+
+/-- callbacks of the `awk` ops, by id: how the call ends, from its arguments -/
+def awkCallById (id : String) (args : List Bytes) : Flow :=
+  match id with
+  | "put" => .ok
+  | "cont" => .cont
+  | "mix" =>
+    match args with
+    | _ :: f1 :: _ =>
+      if f1 = [120] then .brk else if f1 = [99] then .err "fail" else if f1 = [97] then .cont else .ok
+    | _ => .ok
+  | _ => .err "fail"
+
+/-- `s<hex>` | `k<kind>`, separated by `|` -/
+def parseAwkItems (s : String) : Option (List (Bytes ⊕ String)) :=
+  if s = "-" then some []
+  else (s.splitOn "|").mapM fun it =>
+    match it.toList with
+    | 's' :: rest => (hexDecode (String.ofList rest)).map Sum.inl
+    | 'k' :: rest => some (Sum.inr (String.ofList rest))
+    | _ => none
+
+/-- the match lists of the string items, in order, separated by `|` -/
+def parseAwkMatches (s : String) : Option (List (List Match)) :=
+  if s = "-" then some [] else (s.splitOn "|").mapM parseMatches
+
+def zipAwk : List (Bytes ⊕ String) → List (List Match) → List AwkIn
+  | [], _ => []
+  | .inr k :: rest, mss => .other k :: zipAwk rest mss
+  | .inl b :: rest, ms :: mss => .line b ms :: zipAwk rest mss
+  | .inl b :: rest, [] => .line b [] :: zipAwk rest []
+
+def awkLine (r : Res (List (List Bytes) × Option String)) : String :=
+  match r with
+  | .ok (calls, e) =>
+    let cs := calls.map fun args => "c:" ++ ",".intercalate (args.map hexEnc)
+    " ".intercalate ("AWK" :: cs) ++ (match e with | some e => " EXC " ++ e | none => " OK")
+  | .exc e => "EXC " ++ e
+  | .panic w => if w = "FUEL" then "FUEL" else "PANIC"
+
+def decodeRe : List String → Option ReCall
+  | ["find", flags, max, pat, src, patok, ms] =>
+    match max.toInt?, hexDecode pat, hexDecode src, parseMatches ms with
+    | some n, some pat, some src, some full =>
+      some { pat, posix := hasFlag flags 'p', longest := hasFlag flags 'g', src, patOk := patok = "1", full,
+             k := fun ok full => resLine (reFind ok n src full) fun l => l.map matchTok }
+    | _, _, _, _ => none
+  | ["resplit", flags, max, pat, src, patok, ms] =>
+    match max.toInt?, hexDecode pat, hexDecode src, parseMatches ms with
+    | some n, some pat, some src, some full =>
+      some { pat, posix := hasFlag flags 'p', longest := hasFlag flags 'g', src, patOk := patok = "1", full,
+             k := fun ok full => resLine (reSplit ok pat.isEmpty n src full) fun l => l.map sTok }
+    | _, _, _, _ => none
+  | ["rematch", flags, pat, src, patok, ms] =>
+    match hexDecode pat, hexDecode src, parseMatches ms with
+    | some pat, some src, some full =>
+      some { pat, posix := hasFlag flags 'p', longest := false, src, patOk := patok = "1", full,
+             k := fun ok full => resLine (reMatch ok full) fun b => [boolTok b] }
+    | _, _, _ => none
+  | ["rereplace", flags, pat, kind, repl, src, patok, ms, names, nameRunes] =>
+    match hexDecode pat, hexDecode src, parseMatches ms, parseHexList names, parseInts nameRunes with
+    | some pat, some src, some full, some names, some nr =>
+      let literal := hasFlag flags 'l'
       let isName : Rune → Bool := fun r => r = 95 || nr.contains (Int.ofNat r)
       let r : Option Repl :=
         match kind with
@@ -151,10 +216,50 @@ def stepLine : List String → String
         | "o" => some (Repl.other repl)
         | _ => none
       match r with
-      | some r => resLine (reReplace (patok = "1") literal isName names r src full) fun b => [sTok b]
-      | none => "bad-op"
-    | _, _, _, _ => "bad-op"
-  | _ => "bad-op"
+      | some r =>
+        some { pat, posix := hasFlag flags 'p', longest := hasFlag flags 'g', src, patOk := patok = "1", full,
+               k := fun ok full => resLine (reReplace ok literal isName names r src full) fun b => [sTok b] }
+      | none => none
+    | _, _, _, _, _ => none
+  | ["awk", flags, sep, cb, items, patok, mss] =>
+    -- `makePattern(opts.Sep, opts.SepPosix, opts.SepLongest)` once; the subjects are the trimmed
+    -- lines, and the engine's answers for all of them travel in the op line
+    match hexDecode sep, parseAwkItems items, parseAwkMatches mss with
+    | some sep, some its, some mss =>
+      some { pat := sep, posix := hasFlag flags 'p', longest := hasFlag flags 'g', src := [], patOk := patok = "1",
+             full := [],
+             k := fun ok _ => awkLine (reAwk ok sep.isEmpty (awkCallById cb) (zipAwk its mss)) }
+    | _, _, _ => none
+  | _ => none
 
-def driver : Driver := Driver.pure stepLine
+/-- the engine an op line describes: it answers for the pattern, flags and subject of the op -/
+def engineOf (c : ReCall) : Engine where
+  patOk := fun _ _ => c.patOk
+  run := fun p px lg s => if p = c.pat ∧ px = c.posix ∧ lg = c.longest ∧ s = c.src then c.full else []
+
+/-- A `re:` op as a function of its op line only. -/
+def reLine (c : ReCall) : String :=
+  withPattern (engineOf c) c.pat c.posix c.longest c.src (c.k false []) (c.k true)
+
+/-- The same op run against the heap of `*Regexp` objects left by the ops before it. -/
+def reLineH (h : Heap) (c : ReCall) : Heap × String :=
+  withPatternH (engineOf c) h c.pat c.posix c.longest c.src (c.k false []) "NIL-DEREF" (c.k true)
+
+/-- history-free semantics of an op line -/
+def stepPure (l : List String) : String :=
+  match decodeRe l with
+  | some c => reLine c
+  | none => stepLine l
+
+/-- the driver's step: the heap of regexp objects is threaded through the `re:` ops
+(`reset` = a new process image: empty heap) -/
+def stepH (h : Heap) (l : List String) : Heap × String :=
+  match decodeRe l with
+  | some c => reLineH h c
+  | none =>
+    match l with
+    | "reset" :: _ => ([], "RESET")
+    | _ => (h, stepLine l)
+
+def driver : Driver := { σ := Heap, init := [], step := stepH }
 end C41
